@@ -80,7 +80,7 @@ prop("C03", quick={"runs": 1000000}, thorough={"runs": 100000000, "budget_s": 90
      probes=["background_build", "failed_build", "expired_entry_without_item"])
 prop("C04", quick={"runs": 8000}, thorough={"runs": 100000000, "budget_s": 600},
      rule=FO_RULE + "Callers cancel contexts, let deadlines pass, overwrite or reuse key buffers after Get returned; backend faults "
-     "are injected. After quiescence everything is expired and one fault-free Get per key is issued. Non-trivial: overlapping Gets on one key.",
+     "are injected. Two runs in eight are the waiters family (one key, all Gets runnable at once, late forced rebuilds with long builders), one in eight the late-readers family (Gets arriving within a few steps of the end of a build that outlasted UpdateTTL). After quiescence everything is expired and one fault-free Get per key is issued. Non-trivial: overlapping Gets on one key.",
      rules=["C04.R1 stuck (scheduler state, not a timeout)", "C04.R2 lock-leak (VerifKeyLocks()==0 at quiescence)",
             "C04.R3 cannot-rebuild (follow-up Get must invoke its builder and return its value)",
             "C04.R4 last-build-lost (every successful build's value was stored under the Get's key)",
@@ -88,7 +88,7 @@ prop("C04", quick={"runs": 8000}, thorough={"runs": 100000000, "budget_s": 600},
             "C04.R6 bounded liveness in simulated time: a waiting Get returns within 0.5 simulated seconds of the return of everything invoked before it started waiting, "
             "not after a later owner's builder that sleeps for seconds",
             "C04.R7 completed-build-rolled-back: at quiescence the last successful store of a key does not carry an older origin (build exit, or 'cached before any build') than an earlier store; "
-            "the signature names the mechanism (who stored the older value, what it had read, SyncRead) - one mechanism is an open known finding"],
+            "the signature names the mechanism (who stored the older value, what it had read, whether that Get owned the key lock, SyncRead) - one mechanism is an open known finding"],
      probes=["last_store_judged", "key_overwritten_while_background_build_pending", "ctx_cancelled_with_background_build", "background_build",
              "get_invoked_during_build", "backend_error_reached_a_get", "waiter_liveness_checked"])
 prop("C05", quick={"runs": 8000}, thorough={"runs": 100000000, "budget_s": 600},
@@ -149,10 +149,11 @@ prop("C08", quick={"runs": 40000}, thorough={"runs": 100000000, "budget_s": 600}
      arch32={"thorough_runs": 100000, "workers": 2},
      rule=BE_RULE + "2-16 client tasks issue 1-5 operations each over <= 4 keys (partly constructed hash collisions); in half of the runs the real "
      "janitor runs cleanup/eviction cycles concurrently. Histories (invoke/return event sequence numbers, batch operations expanded into one "
-     "pseudo-operation per key) are checked with porcupine against a nondeterministic per-key model. Non-trivial: two operations of different "
+     "pseudo-operation per key) are checked with porcupine against a nondeterministic per-key model. Two runs in forty: 2-6 clients call ExpireAll at about the same time on entries written before, and nothing else happens. Non-trivial: two operations of different "
      "clients touching the same key (or a batch / janitor cycle) overlapped; distinct = distinct (scenario, schedule signature).",
-     rules=["C08.R1 porcupine: Illegal is a violation, Unknown is inconclusive and never reported", "C08.R2 Walk reports only stored entries, visits every unchanged entry exactly once, and never an entry that a completed Delete / DeleteAll / overwrite had replaced before the part of the walk that reached it began"],
-     probes=["read_overlapping_write", "delete_overlapping_write", "read_overlapping_delete", "janitor_cycle_overlapping_write", "walk_checked", "walk_unchanged_entry_checked", "walk_visit_freshness_checked"])
+     rules=["C08.R1 porcupine: Illegal is a violation, Unknown is inconclusive and never reported", "C08.R2 Walk reports only stored entries, visits every unchanged entry exactly once, and never an entry that a completed Delete / DeleteAll / overwrite had replaced before the part of the walk that reached it began",
+            "C08.R3 overlapping ExpireAll calls (and nothing else) leave one expiry instant on every entry, between the first invocation and the first return"],
+     probes=["overlapping_expire_all_judged", "read_overlapping_write", "delete_overlapping_write", "read_overlapping_delete", "janitor_cycle_overlapping_write", "walk_checked", "walk_unchanged_entry_checked", "walk_visit_freshness_checked"])
 prop("C09", quick={"runs": 12000}, thorough={"runs": 100000000, "budget_s": 600},
      rule="Half of the runs: sequences of backend operations over families of 2-4 constructed xxhash64 collisions (64-byte keys, asserted with the "
      "real xxhash.Sum64) plus ordinary keys on all three backends, key buffers overwritten right after each call, checked against a lossy reference "
@@ -187,7 +188,7 @@ prop("C14", quick={"runs": 6000}, thorough={"runs": 100000000, "budget_s": 600},
      probes=["cache_imported", "importer_cache_unknown_to_exporter", "types_hash_fresh_process_evaluations", "zero_types_hash_transfer", "concurrent_imports_from_one_handler"])
 prop("C15", quick={"runs": 9000}, thorough={"runs": 100000000, "budget_s": 600}, level="fault_enumeration",
      rule=TR_RULE + "InvalidationIndex over 1-3 cache names with 1-3 deleters each (real backends behind a fault wrapper), generated label/key incidence structures "
-     "(several labels per key, shared keys, repeated labelling, unused labels, labelled-but-absent keys, duplicated label arguments). A third of the runs are "
+     "(several labels per key, shared keys, repeated labelling, unused labels, labelled-but-absent keys, duplicated label arguments; in 15 % cache names and keys whose concatenation is ambiguous under a separator). A third of the runs are "
      "fault-free sequences; a third come in families of 12 sharing one structure while the failing Delete ordinal sweeps 0..11 (every delete position), each "
      "followed by a fault-free retry (the same labels in one call, or one call per label); a third run AddLabels / AddCache / InvalidateByLabels / writes concurrently; every 12th run injects the failure while "
      "other tasks AddLabels concurrently and ends with a fault-free sweep over all labels; every 12th run lets 2-3 clients invalidate the same labels at once with one failing Delete. In 20 % the constructor's "
